@@ -1,9 +1,9 @@
 (* C14 -- card content builders put the right content under the right heading.
-   Only statements.  Model: coq/card/{Ops,Render,Spec}.v; proofs: BuildersFacts.v.
-   PrettyTable's layout (`pretty`) and get_params (the `params` argument) are oracles: only what is
-   handed to / received from them is reasoned about. *)
-From Skv Require Import PyStr Json CardStr Path Tree Ops Render Spec
-                        TreeFacts OpsFacts RenderFacts BuildersFacts.
+   Only statements.  Model: coq/card/{Ops,Render,Spec,ModelPlot}.v; proofs: BuildersFacts.v, ModelPlotFacts.v.
+   PrettyTable's layout (`pretty`), get_params (the `params` argument) and sklearn's estimator_html_repr (the `html`
+   argument of OAddModelPlot) are oracles: only what is handed to / received from them is reasoned about. *)
+From Skv Require Import PyStr Json CardStr Path Tree ModelPlot Ops Render Spec
+                        TreeFacts OpsFacts RenderFacts ModelPlotFacts BuildersFacts.
 Open Scope N_scope.
 
 (* what TableSection.format hands to PrettyTable: the given column names in order; per column one cell
@@ -100,6 +100,129 @@ Theorem C14_placement_text : forall fold key val c,
     /\ subs x = match lookup (split_names key) (data c) with Some old => subs old | None => [] end.
 Proof. exact placement_text. Qed.
 Print Assumptions C14_placement_text.
+
+(* ---- add_model_plot(section, description); html = str(estimator_html_repr(model)) is an oracle input ---- *)
+(* placement: a plain text section, visible and not folded, at split(section), titled with the LAST path part,
+   content = the description rule over the processed HTML, old subsections kept, metrics untouched *)
+Theorem C14_placement_model_plot : forall sect desc html c,
+  let c' := fst (run_op (OAddModelPlot sect desc html) c) in
+  exists x, lookup (split_names sect) (data c') = Some x
+    /\ title x = last (split_names sect) []
+    /\ content x = model_plot_content desc html
+    /\ visible x = true
+    /\ folded x = false
+    /\ skind x = KText
+    /\ subs x = match lookup (split_names sect) (data c) with Some old => subs old | None => [] end
+    /\ metrics c' = metrics c.
+Proof. exact placement_model_plot. Qed.
+Print Assumptions C14_placement_model_plot.
+
+(* ... and after ANY history *)
+Theorem C14_model_plot_after_history : forall ops sect desc html,
+  let c0 := run_card ops empty_card in
+  let c := run_card (ops ++ [OAddModelPlot sect desc html]) empty_card in
+  exists x, lookup (split_names sect) (data c) = Some x
+    /\ shallow_of x = (last (split_names sect) [], model_plot_content desc html, true, false, KText)
+    /\ subs x = match lookup (split_names sect) (data c0) with Some old => subs old | None => [] end.
+Proof. exact model_plot_after_history. Qed.
+Print Assumptions C14_model_plot_after_history.
+
+(* the content: None and "" give the processed HTML alone, any other description is put in front with a blank line;
+   processed HTML = style fix applied to re.sub(r"\n\s+", "", html) *)
+Theorem C14_model_plot_content : forall desc html,
+  model_plot_content desc html =
+  match desc with
+  | None | Some [] => fix_container (strip_indent html)
+  | Some d => d ++ [LF; LF] ++ fix_container (strip_indent html)
+  end.
+Proof. exact model_plot_content_spec. Qed.
+Print Assumptions C14_model_plot_content.
+
+(* re.sub(r"\n\s+", "", a), for EVERY string a: no line feed directly followed by a whitespace character is left *)
+Theorem C14_strip_indent_no_pair : forall a,
+  ~ exists pre c post, strip_indent a = pre ++ LF :: c :: post /\ is_space c = true.
+Proof. exact strip_indent_no_pair. Qed.
+Print Assumptions C14_strip_indent_no_pair.
+
+(* ... the result is the input with some whitespace characters left out: a subsequence, all other characters kept in order *)
+Theorem C14_strip_indent_subsequence : forall a,
+  subseq a (strip_indent a)
+  /\ drops_spaces a (strip_indent a)
+  /\ filter (fun c => negb (is_space c)) (strip_indent a) = filter (fun c => negb (is_space c)) a.
+Proof. exact (fun a => conj (strip_indent_subseq a) (conj (strip_indent_drops_spaces a) (strip_indent_keeps_nonspace a))). Qed.
+Print Assumptions C14_strip_indent_subsequence.
+
+(* ... and it is the identity exactly on the strings without such a pair *)
+Theorem C14_strip_indent_identity : forall a,
+  strip_indent a = a <-> ~ exists pre c post, a = pre ++ LF :: c :: post /\ is_space c = true.
+Proof. exact strip_indent_fixed_iff. Qed.
+Print Assumptions C14_strip_indent_identity.
+
+(* ... and the one-pass model is the regex engine's procedure: at the leftmost LF that is followed by whitespace drop
+   the LF and the maximal whitespace run (lstrip) behind it, continue there *)
+Theorem C14_strip_indent_leftmost_greedy : forall a, strip_indent a = resub_ref (length a) a.
+Proof. exact strip_indent_ref. Qed.
+Print Assumptions C14_strip_indent_leftmost_greedy.
+
+(* str.count / str.replace of a non-empty literal: no occurrence (count 0, unchanged), or the LEFTMOST occurrence is
+   counted / replaced and both continue behind it (non-overlapping) *)
+Theorem C14_count_replace : forall sub new a, sub <> [] ->
+  (count_sub sub a = 0 /\ replace_sub sub new a = a /\ ~ (exists pre post, a = pre ++ sub ++ post))
+  \/ exists pre post,
+       a = pre ++ sub ++ post
+       /\ (forall p q, a = p ++ sub ++ q -> (length pre <= length p)%nat)
+       /\ count_sub sub a = 1 + count_sub sub post
+       /\ replace_sub sub new a = pre ++ new ++ replace_sub sub new post.
+Proof. exact count_replace_step. Qed.
+Print Assumptions C14_count_replace.
+
+(* the style attribute is added iff "sk-top-container" is counted exactly once: then that one occurrence becomes
+   `sk-top-container" style="overflow: auto;`; with 0 or >= 2 occurrences the text is unchanged *)
+Theorem C14_style_iff_counted_once : forall t,
+  (count_sub sk_top t = 1 ->
+     exists pre post, t = pre ++ sk_top ++ post
+       /\ (forall p q, t = p ++ sk_top ++ q -> (length pre <= length p)%nat)
+       /\ ~ occurs sk_top post
+       /\ fix_container t = pre ++ sk_top_styled ++ post)
+  /\ (count_sub sk_top t <> 1 -> fix_container t = t)
+  /\ (fix_container t <> t <-> count_sub sk_top t = 1).
+Proof. exact fix_container_spec. Qed.
+Print Assumptions C14_style_iff_counted_once.
+
+Theorem C14_literals :
+  sk_top = of_ascii "sk-top-container" /\ sk_top_styled = of_ascii "sk-top-container"" style=""overflow: auto;".
+Proof. exact (conj eq_refl eq_refl). Qed.
+Print Assumptions C14_literals.
+
+(* non-vacuity: indentation runs ("\n   ", "\n\t\u00a0", "\n\n"), a final "\n" that stays, one class-name occurrence *)
+Theorem C14_model_plot_example :
+  (exists pre c post, demo_html = pre ++ LF :: c :: post /\ is_space c = true)
+  /\ count_sub sk_top (strip_indent demo_html) = 1
+  /\ model_plot_div demo_html = of_ascii "<div class=""sk-top-container"" style=""overflow: auto;""><p>x </p></div>" ++ [10]
+  /\ model_plot_content (Some (of_ascii "The model")) demo_html
+     = of_ascii "The model" ++ [10; 10] ++ of_ascii "<div class=""sk-top-container"" style=""overflow: auto;""><p>x </p></div>" ++ [10]
+  /\ model_plot_content (Some []) demo_html = model_plot_div demo_html.
+Proof. exact demo_html_div. Qed.
+Print Assumptions C14_model_plot_example.
+
+Theorem C14_model_plot_two_occurrences :
+  let t := of_ascii ".sk-top-container {}" ++ [10; 32] ++ of_ascii "<div class=""sk-top-container"">" in
+  count_sub sk_top (strip_indent t) = 2
+  /\ model_plot_div t = of_ascii ".sk-top-container {}<div class=""sk-top-container"">".
+Proof. exact demo_two_occurrences. Qed.
+Print Assumptions C14_model_plot_two_occurrences.
+
+Theorem C14_model_plot_in_card :
+  let c := run_card [ OAdd false [(of_ascii "Model description/Training Procedure/Model Plot/Note", of_ascii "n")];
+                      OAddModelPlot (of_ascii "Model description/Training Procedure/Model Plot") (Some (of_ascii "The model")) demo_html ]
+                    empty_card in
+  exists x, lookup [of_ascii "Model description"; of_ascii "Training Procedure"; of_ascii "Model Plot"] (data c) = Some x
+    /\ title x = of_ascii "Model Plot"
+    /\ content x = of_ascii "The model" ++ [10; 10]
+                   ++ of_ascii "<div class=""sk-top-container"" style=""overflow: auto;""><p>x </p></div>" ++ [10]
+    /\ keys (subs x) = [of_ascii "Note"].
+Proof. exact model_plot_example. Qed.
+Print Assumptions C14_model_plot_in_card.
 
 (* in every card reached through builders / select / delete / flag assignments each heading is the name under which
    its section is stored (a direct `section.title = t` assignment, OSetTitle, changes the heading and not the key) *)
